@@ -195,6 +195,23 @@ theorem C02_kv_tag_prefix_since_witness :
     (planFilter { f with since := none } none 20).map (executePlan s) = some [(pEv 1 1700000100 [97]).id] := by
   decide +kernel
 
+/-- **Finding `kv-tag-nul-extension-window`** — event 1 is tagged `t=a` at 1700000000 (0x6553F100); event 2
+    is tagged `t="a\u0000eS\U00040000"` (bytes `61 00 65 53 F1 80 80 80`) at a later time.  The key of
+    event 2 is `09 t 00 a 00 65 53 F1 80 80 80 00 ts 00 id`: it carries the match `09 t 00 a` as a prefix and
+    sorts *inside* the block of `a`, between the key of event 1 (`… 00 65 53 F1 00 00 id`) and the seek
+    position of `until = 0x6553F1FF`.  `{"#t":["a"],"until":1700000255}` strictly matches event 1, but the
+    scan meets event 2 first, reads its timestamp (after `until`), and gives up the value: nothing is
+    delivered.  Without `until`, or without event 2 in the store, event 1 is delivered. -/
+theorem C02_kv_tag_nul_until_witness :
+    let e1 := pEv 1 1700000000 [97]
+    let e2 := pEv 2 1700001255 [97, 0, 101, 83, 241, 128, 128, 128]
+    let f : Filter := { tags := [([116], [[97]])], until_ := some 1700000255 }
+    matchesSpec true f e1 = true ∧
+    (planFilter f none 20).map (executePlan (applyTasks init [.add e1, .add e2])) = some [] ∧
+    (planFilter f none 20).map (executePlan (applyTasks init [.add e1])) = some [e1.id] ∧
+    (planFilter { f with until_ := none } none 20).map (executePlan (applyTasks init [.add e1, .add e2])) = some [e1.id] := by
+  decide +kernel
+
 end NostrRelay.KV
 
 namespace NostrRelay.SQL
